@@ -3,11 +3,16 @@ from vcommon import *
 import scen_common, prop_mu_family
 
 PID = "C02"
-PROP_V = ["Props/Properties_C02.v", "Props/Properties_C02b.v", "Props/Properties_C02c.v"]
+PROP_V = ["Props/Properties_C02.v", "Props/Properties_C02b.v", "Props/Properties_C02c.v", "Props/Properties_C06x.v"]
 GEN_MODULES = ["Consts", "Sites"]
-FLOW_FILES = ['mu.c']
+FLOW_FILES = ['mu.c', 'mu_wait.c']
 REPLAY_HINT = "VRT_SEED=<seed> [env] _work/h/<scenario>; a STUCK report lists the sleeping threads and the last steps"
-PARTIAL = ["the property's own shape is a theorem for balanced straight-line programs (Properties_C02c, C02_balanced_quiescent_done: every reachable world in which "
+PARTIAL = ["hand-off for the mutex WITH conditional critical sections (MuWaitModel, repaired code): Properties_C06x.C06_sleeper_faces_holder and C06_handoff: in every "
+           "reachable quiescent world every thread asleep in nsync_mu_lock / nsync_mu_rlock / nsync_mu_wait faces a mutex that some thread still holds (or, for a "
+           "conditional waiter, has a false condition); the invariant behind it (MU_DESIG_WAKER implies an agent; MU_WAITING set while the queue is non-empty; "
+           "MU_WRITER_WAITING and MU_LONG_WAIT have owners; semaphore accounting) holds in every reachable world of programs without nsync_mu_unlock_without_wakeup; "
+           "it was false of the code as found (F13, F14)",
+           "the property's own shape is a theorem for balanced straight-line programs (Properties_C02c, C02_balanced_quiescent_done: every reachable world in which "
            "every thread is asleep, finished or crashed has everybody finished; no trylock, no nested acquisition -- the model stops a re-acquiring thread at Crash 4, so "
            "self-deadlock is excluded by hypothesis); it is the safety half (no reachable deadlock / lost wake-up): that a fair schedule reaches such a world is still "
            "not a theorem (spinners are runnable)",
